@@ -11,6 +11,9 @@ Model driver for C09 (worker pool).  One script per line, one result line per sc
   op     : s<d> q g x
   lists  : "-" or comma separated naturals
 
+`sqfsmodel c09 rand <repaired> <nworkers> <rcspec> <seed> <count> <pSwitch%> <pSpur%> <op>*` prints `count` random
+schedules of the API script that follow the model's enabled sets (to termination, quiescence or deadlock).
+
 `sqfsmodel c09 enum <repaired> <nworkers> <rcspec> <preemptions> <spurious> <maxpaths> <op>*` is not a line
 op: it prints every schedule (as a `run …` line) of the given API script that the strict relation admits with
 at most that many pre-emptions and spurious wake-ups (depth first, complete when `maxpaths` is not hit; the
@@ -209,9 +212,60 @@ def enumMain (args : List String) : IO Unit := do
     | _, _, _, _, _, _ => out.putStrLn "bad-op"
   | _ => out.putStrLn "bad-op"
 
+/-! ### random schedules that follow the model's enabled sets (validation only) -/
+
+def lcg (x : Nat) : Nat := (x * 6364136223846793005 + 1442695040888963407) % 18446744073709551616
+
+def pick {α : Type} (x : Nat) (l : List α) : Option α := l[(x / 4294967296) % l.length]?
+
+/-- one random schedule: with probability `pSwitch`% pick any enabled thread, else keep running the last one
+while it is enabled; with probability `pSpur`% take a spurious wake-up when one is possible. -/
+def randPath (cfg : Cfg) (pSwitch pSpur : Nat) (fuel : Nat) (s : State) (ops : List Op) (last : Option Nat)
+    (x : Nat) (acc : List String) : List String × Nat :=
+  match fuel with
+  | 0 => (acc.reverse, x)
+  | fuel + 1 =>
+    let sc := strictChoices s ops
+    let sp := spuriousChoices s
+    let x1 := lcg x
+    let x2 := lcg x1
+    let x3 := lcg x2
+    let c? : Option Choice :=
+      if !sp.isEmpty && (x1 / 4294967296) % 100 < pSpur then pick x2 sp
+      else if sc.isEmpty then none
+      else
+        let keep := match last with | some t => sc.find? (fun c => choiceTid c == t) | none => none
+        match keep with
+        | some c => if (x2 / 4294967296) % 100 < pSwitch then pick x3 sc else some c
+        | none => pick x3 sc
+    match c? with
+    | none => (acc.reverse, x3)
+    | some c =>
+      match step cfg s c with
+      | none => (acc.reverse, x3)
+      | some s' =>
+        let ops' := match c with | .main (.call _) => ops.drop 1 | _ => ops
+        randPath cfg pSwitch pSpur fuel s' ops' (some (choiceTid c)) x3 (showChoice c :: acc)
+
+def randMain (args : List String) : IO Unit := do
+  let out ← IO.getStdout
+  match args with
+  | rep :: n :: rc :: seed :: count :: psw :: psp :: ops =>
+    match n.toNat?, parseRcSpec rc, seed.toNat?, count.toNat?, psw.toNat?, psp.toNat?, ops.mapM parseOp with
+    | some n, some tbl, some seed, some count, some psw, some psp, some ops =>
+      let cfg : Cfg := { repaired := rep == "1", rcOf := rcFun tbl }
+      let mut x := lcg (seed + 12345)
+      for _ in [0:count] do
+        let (path, x') := randPath cfg psw psp 100000 (init n) ops none x []
+        x := x'
+        out.putStrLn (s!"run {rep} {n} {rc} " ++ " ".intercalate path)
+    | _, _, _, _, _, _, _ => out.putStrLn "bad-op"
+  | _ => out.putStrLn "bad-op"
+
 def run (args : List String) : IO Unit := do
   match args with
   | "enum" :: r => enumMain r
+  | "rand" :: r => randMain r
   | _ => lineLoop (← IO.getStdin) (← IO.getStdout) stepLine
 
 end Driver.C09
